@@ -94,6 +94,14 @@ func DriveC13(t *tr.W, thorough bool) {
 		{"lacks-witness-first", nil, []Behaviour{{Kind: "noServices", Variant: "witness"}, honest()}, "services", 0},
 		{"lacks-cf-second", nil, []Behaviour{honest(), {Kind: "noServices", Variant: "cf"}}, "services", 0},
 		{"lacks-witness-second", nil, []Behaviour{honest(), {Kind: "noServices", Variant: "witness"}}, "services", 0},
+		// ... and the same peers when the handshake never gets past their version message (they announce their
+		// services and then withhold the verack), or completes on the wire and is hung up at once: what the peer
+		// offers is known from the version message on, so the ban and the disconnect are due then, not at a
+		// later step (verack, add-peer) that such a peer can keep from ever happening
+		{"lacks-cf-noverack-first", nil, []Behaviour{{Kind: "noServices", Variant: "cf-noverack"}, honest()}, "services", 0},
+		{"lacks-witness-noverack-second", nil, []Behaviour{honest(), {Kind: "noServices", Variant: "witness-noverack"}}, "services", 0},
+		{"lacks-cf-hangup-second", nil, []Behaviour{honest(), {Kind: "noServices", Variant: "cf-hangup"}}, "services", 0},
+		{"lacks-witness-hangup-first", nil, []Behaviour{{Kind: "noServices", Variant: "witness-hangup"}, honest()}, "services", 0},
 	}
 	for _, v := range vs {
 		l := 20 + rng.Intn(20)
@@ -199,6 +207,11 @@ func DriveC13(t *tr.W, thorough bool) {
 		t.Op("after", o.String())
 		if v.how == "services" {
 			s.askedLines()
+			for _, p := range s.Peers {
+				if n := atomic.LoadInt32(&p.Stalled); n > 0 {
+					t.Hit("c13.services.handshake-stalled-after-version")
+				}
+			}
 		}
 		t.Hit("c13." + v.how)
 		stopLine(t, s, v.name)
